@@ -54,11 +54,6 @@ func gfsHookAvailable() bool {
 	return ok
 }
 
-// known defect shapes (chunk size <= 0, chunk size > buffer, unknown whence)
-// are generated for the ORACLE only when VERIF_C18_EDGES=1; the
-// correspondence family always includes them (model and code agree on them).
-func gfsEdges() bool { return os.Getenv("VERIF_C18_EDGES") == "1" }
-
 func gfsCByte(seed, i int64) byte { return byte((seed + 131*i + i/251) % 256) }
 
 func gfsCBytes(seed, off, n int64) []byte {
@@ -260,6 +255,8 @@ func (e *gfsEnv) step(seed int64, op *sx) (string, bool) {
 		f, cs := arg(1), int(arg(2))
 		s, err := e.openUpload(f, cs)
 		if err != nil {
+			// no stream: the client has nothing to write to
+			e.up = nil
 			return "o:" + gfsErr(err), false
 		}
 		e.up, e.upCS = s, cs
@@ -367,10 +364,11 @@ func gfsSxText(c *sx) string {
 	return "(" + strings.Join(parts, " ") + ")"
 }
 
-// A Write that spins forever cannot be stopped from outside its goroutine and
-// would slow every later case of the run down; a case that may hang (an
-// upload stream whose chunk size exceeds the buffer) is therefore run in a
-// child process, which reports HANG through its watchdog and exits.
+// OpenUploadStream refuses a chunk size above the buffer. Should it ever accept
+// one again, Write spins forever; such a goroutine cannot be stopped from
+// outside and would slow every later case of the run down. A case that opens a
+// stream with chunk size > buffer is therefore run in a child process, which
+// would report HANG through its watchdog and exit.
 func gfsMayHang(c *sx, B int) bool {
 	for _, op := range c.list[4:] {
 		if op.list[0].atom == "open" && atoi64(op.list[2].atom) > int64(B) {
@@ -439,7 +437,7 @@ func (g *gfsGen) emit(format string, a ...interface{}) {
 	g.ops = append(g.ops, fmt.Sprintf(format, a...))
 }
 
-var gfsHangCases, gfsPanicCases int
+var gfsOverBufferCases int
 
 func gfsPickB(r *rng) int {
 	if !gfsHookAvailable() {
@@ -650,19 +648,26 @@ func genGridfs(r *rng) string {
 	g.base = int64(r.intn(3)) * 1000
 	shape := r.intn(20)
 
-	// the defect edges of the faithful model (both sides agree on them)
+	// chunk sizes that OpenUploadStream must refuse (zero or less would panic
+	// in upload, more than the buffer would make Write spin forever)
 	if shape == 19 {
+		if r.chance(1, 2) {
+			// the production validation is the one that matters (the verif
+			// constructor has its own copy): half of these through it
+			g.B = realUploadBuffer
+		}
 		switch r.intn(3) {
 		case 0:
-			if gfsPanicCases < 40 {
-				gfsPanicCases++
-				g.cs = pick(r, []int{0, 0, -1, -3})
-			}
+			g.cs = pick(r, []int{0, 0, -1, -3})
 		case 1:
-			if g.B != realUploadBuffer && gfsHangCases < 3 {
-				gfsHangCases++
+			// these run in a child process (see gfsMayHang): a bounded number
+			if gfsOverBufferCases < 12 {
+				gfsOverBufferCases++
 				g.cs = g.B + 1 + r.intn(3)
 				L = int64(g.B) + int64(r.intn(4))
+				if L > 5000 {
+					L = 5000
+				}
 			}
 		}
 	}
@@ -826,7 +831,7 @@ func genGridfs(r *rng) string {
 		for i := 0; i < 6+r.intn(14); i++ {
 			switch r.intn(16) {
 			case 0:
-				ncs := pick(r, []int{g.cs, g.cs, 1, 2, 3})
+				ncs := pick(r, []int{g.cs, g.cs, 1, 2, 3, 0})
 				if ncs > g.B {
 					ncs = g.cs // never an accidental chunk size > buffer: Write would spin
 				}
@@ -916,6 +921,9 @@ func classifyGridfs(c *sx, obs string) ([]string, bool) {
 			labels = append(labels, "obs:"+k)
 		}
 	}
+	if strings.Contains(obs, "o:ERR") {
+		labels = append(labels, "obs:open-refused")
+	}
 	multi := strings.Contains(obs, ",1:")
 	if multi {
 		labels = append(labels, "multi-chunk")
@@ -984,6 +992,16 @@ func runC18(sc *c18Scenario) (sig, what string) {
 }
 
 func runC18Inner(sc *c18Scenario) (string, string) {
+	badAccepted := false
+	sig, what := runC18Body(sc, &badAccepted)
+	if badAccepted && sig == "" {
+		// a chunk size that must be refused was accepted and the scenario went through
+		return "C18:bad-chunk-size-accepted", fmt.Sprintf("OpenUploadStream accepted chunk size %d with a %d byte buffer", sc.CS, sc.B)
+	}
+	return sig, what
+}
+
+func runC18Body(sc *c18Scenario, badAccepted *bool) (string, string) {
 	e := newGfsEnv(sc.B, sc.Tracked)
 	defer e.close()
 	content := c18Content(sc.Seed, sc.Length)
@@ -1022,8 +1040,24 @@ func runC18Inner(sc *c18Scenario) (string, string) {
 		return "", ""
 	}
 	up, err := e.openUpload(1, sc.CS)
-	if err != nil {
-		return "C18:infra", err.Error()
+	if sc.CS <= 0 || sc.CS > sc.B {
+		// the chunk size must be refused when the stream is opened, nothing stored
+		if err != nil {
+			if len(e.chunksOf(1)) != 0 || e.fileOf(1) != nil || e.markerOf(1) != nil {
+				return "C18:refused-open-stores", "a refused OpenUploadStream left documents behind"
+			}
+			return checkOther()
+		}
+		if sc.CS > sc.B {
+			if c18HangScenarios >= 2 {
+				return "C18:bad-chunk-size-accepted", fmt.Sprintf("OpenUploadStream accepted chunk size %d with a %d byte buffer", sc.CS, sc.B)
+			}
+			c18HangScenarios++
+		}
+		// accepted: run on to see what it does (panic / hang get their own signature)
+		*badAccepted = true
+	} else if err != nil {
+		return "C18:open-error", fmt.Sprintf("OpenUploadStream refused chunk size %d (buffer %d): %v", sc.CS, sc.B, err)
 	}
 	sent := 0
 	for _, w := range sc.Writes {
@@ -1233,26 +1267,30 @@ func c18Signature(sc *c18Scenario, sig string) string {
 	return sig
 }
 
-func genC18(r *rng, edges bool) *c18Scenario {
+func genC18(r *rng) *c18Scenario {
 	sc := &c18Scenario{}
 	sc.B = gfsPickB(r)
 	sc.Tracked = r.chance(1, 2)
 	sc.CS = gfsPickCS(r, sc.B)
 	sc.Length = int(gfsPickLen(r, sc.B, sc.CS))
 	sc.Seed = r.u64()
-	if edges && r.chance(1, 4) {
+	if r.chance(1, 12) {
+		// chunk sizes that must be refused at open; half of them through the
+		// production validation (the verif constructor has its own copy)
+		if r.chance(1, 2) {
+			sc.B = realUploadBuffer
+		}
 		switch r.intn(2) {
 		case 0:
-			sc.CS = pick(r, []int{0, -1})
+			sc.CS = pick(r, []int{0, -1, -7})
 			if sc.Length == 0 {
 				sc.Length = 3
 			}
 		default:
-			// at most two: a spinning Write cannot be stopped and slows the run down
-			if sc.B != realUploadBuffer && c18HangScenarios < 2 {
-				c18HangScenarios++
-				sc.CS = sc.B + 1
-				sc.Length = sc.B + 2
+			sc.CS = sc.B + 1 + r.intn(2)
+			sc.Length = sc.B + 2
+			if sc.Length > 5000 {
+				sc.Length = 5000
 			}
 		}
 	}
@@ -1325,15 +1363,15 @@ func genC18(r *rng, edges bool) *c18Scenario {
 			sc.Script = append(sc.Script, fmt.Sprintf("skip %d", int64(r.intn(int(2*cs)+5))-cs-2))
 		}
 	}
-	if edges && r.chance(1, 6) {
-		sc.Script = append(sc.Script, fmt.Sprintf("seek %d 3", near()))
+	if r.chance(1, 4) {
+		// an unknown whence: an error, and the stream stays where it is
+		sc.Script = append(sc.Script, fmt.Sprintf("seek %d %d", near(), pick(r, []int{3, -1, 7})), "read 2")
 	}
 	return sc
 }
 
 func oracleC18(r *rng, n int, st *oracleStats) []oracleFailure {
-	st.Rule = "scenarios on the real bucket (memory store): random content, chunk size, write partition with suspend/resume in tracked buckets, end = close | abort | delete; checks: download == content, file record, chunk numbering and sizes, concatenation, Read/Seek/Skip script vs bytes.Reader, nothing left after abort/delete, other file untouched; plus runs through the real 16 MiB buffer; non-trivial = more than one chunk"
-	edges := gfsEdges()
+	st.Rule = "scenarios on the real bucket (memory store): random content, chunk size (one in twelve a size that must be refused: <= 0 or > buffer), write partition with suspend/resume in tracked buckets, end = close | abort | delete; checks: bad chunk size refused at open with nothing stored, download == content, file record, chunk numbering and sizes, concatenation, Read/Seek/Skip script (incl. unknown whence) vs bytes.Reader, nothing left after abort/delete, other file untouched; plus runs through the real 16 MiB buffer; non-trivial = more than one chunk"
 	var fails []oracleFailure
 	seenSig := map[string]int{}
 	report := func(sc *c18Scenario, sig, what string) {
@@ -1348,7 +1386,7 @@ func oracleC18(r *rng, n int, st *oracleStats) []oracleFailure {
 	}
 	seen := map[string]bool{}
 	for i := 0; i < n; i++ {
-		sc := genC18(r, edges)
+		sc := genC18(r)
 		sig, what := runC18(sc)
 		st.Evaluations++
 		key := fmt.Sprint(sc.B, sc.Tracked, sc.CS, sc.Length, sc.Writes, sc.End, sc.Script)
@@ -1359,6 +1397,18 @@ func oracleC18(r *rng, n int, st *oracleStats) []oracleFailure {
 			}
 		}
 		st.Dist["end:"+sc.End]++
+		if sc.CS <= 0 || sc.CS > sc.B {
+			st.Dist["chunk-size-to-refuse"]++
+		}
+		for _, op := range sc.Script {
+			var kind string
+			var a, b int64
+			fmt.Sscanf(op, "%s %d %d", &kind, &a, &b)
+			if kind == "seek" && (b < 0 || b > 2) {
+				st.Dist["unknown-whence"]++
+				break
+			}
+		}
 		if sc.Tracked {
 			st.Dist["tracked"]++
 		}
